@@ -46,6 +46,11 @@ pub unsafe extern "C" fn getrandom(buf: *mut u8, buflen: usize, _flags: u32) -> 
     buflen as isize
 }
 
+/// the next thread that asks for HashMap keys gets keys derived from `v` (and the run's hash seed)
+pub fn reset_hash_ctr(v: u64) {
+    HASH_CTR.store(v, Ordering::Relaxed);
+}
+
 fn scratch() -> PathBuf {
     let base = if Path::new("/dev/shm").is_dir() { PathBuf::from("/dev/shm") } else { std::env::temp_dir() };
     base.join(format!("verif-node-{}", std::process::id()))
